@@ -54,20 +54,33 @@ func VH09a_ttl() {
 		}
 		t = 254 + verif.Choice("ttl-top", 2)
 	}
-	err := sock.SetOption(mangos.OptionTTL, t)
-	verif.Assert(verif.Iff(err == nil, verif.And(t >= 1, t <= 255)), "C09/ttl/"+proto+"/accepted-range-1..255")
-	if err != nil {
-		verif.Reach("ttl-rejected")
-		return
-	}
 	var pipeIDs []uint32
 	sock.SetPipeEventHook(func(ev mangos.PipeEvent, p mangos.Pipe) {
 		if ev == mangos.PipeEventAttached {
 			pipeIDs = append(pipeIDs, p.ID())
 		}
 	})
-	side := vt.Listen(sock, "a")
-	peer := side.Peer("p1")
+	// the limit is set before anybody is connected, or on a socket whose peer is already attached (the limit in
+	// force is the one set last, not the one a connection saw when it was made)
+	var side *vt.Side
+	var peer *vt.Pipe
+	late := verif.Choice("ttl-set-after-connect", 2) == 1
+	if late {
+		side = vt.Listen(sock, "a")
+		peer = side.Peer("p1")
+		verif.Quiesce()
+		verif.Reach("ttl-set-late")
+	}
+	err := sock.SetOption(mangos.OptionTTL, t)
+	verif.Assert(verif.Iff(err == nil, verif.And(t >= 1, t <= 255)), "C09/ttl/"+proto+"/accepted-range-1..255")
+	if err != nil {
+		verif.Reach("ttl-rejected")
+		return
+	}
+	if !late {
+		side = vt.Listen(sock, "a")
+		peer = side.Peer("p1")
+	}
 	hopWord := proto == "xpair1" || proto == "pair1" || proto == "xstar" || proto == "star"
 	if hopWord {
 		hopcount(proto, sock, peer, t)
